@@ -68,11 +68,14 @@ def build_py(run, prop=ID):
             return E.call(ini, [ctx["self"], SInt(z3.Int("hsn")), SInt(z3.Int("maio")), ctx["ma"]])
         for p, ctx, out in run_paths(E, setup, inv):
             tag = {"side": "py", "what": "init", "nb": nb}
+            hsn_ok = z3.And(z3.Int("hsn") >= 0, z3.Int("hsn") <= 63)
             if out[0] == "raise":
-                goal = z3.BoolVal(nb == 0 and issubclass(out[1].cls, ValueError))
-                run.add(Obligation(prop, qualname(ini), "raises_ValueError_iff_empty", p.pc, goal, kind="post", case=cs, where=where(ini), tag=tag))
+                goal = z3.And(z3.BoolVal(issubclass(out[1].cls, ValueError)), z3.Or(z3.BoolVal(nb == 0), z3.Not(hsn_ok)))
+                run.add(Obligation(prop, qualname(ini), "raises_ValueError_iff_empty_or_hsn_outside_0_63", p.pc, goal, kind="post", case=cs, where=where(ini), tag=tag))
                 continue
-            run.add(Obligation(prop, qualname(ini), "raises_ValueError_iff_empty", p.pc, z3.BoolVal(nb != 0), kind="post", case=cs, where=where(ini), tag=tag))
+            # a constructed object always satisfies resolve()'s pre-condition on the HSN (RNTABLE index in range): this is what lets the
+            # TRXC SETFH handler accept arbitrary integers without endangering later clock ticks (C14)
+            run.add(Obligation(prop, qualname(ini), "raises_ValueError_iff_empty_or_hsn_outside_0_63", p.pc, z3.And(z3.BoolVal(nb != 0), hsn_ok), kind="post", case=cs, where=where(ini), tag=tag))
             o = ctx["self"]
             pnm = o.attrs.get("_pnm")
             run.add(Obligation(prop, qualname(ini), "pnm_is_2^NBIN-1", p.pc,
@@ -137,7 +140,7 @@ def build_py(run, prop=ID):
     from engine.pyvc.harness import par_cases
     par_cases(run, E, [(N, cyc) for N in range(1, 65) for cyc in (True, False)], resolve_case)
     note_engine(run, E)
-    run.assume("resolve: hsn, maio in 0..63, 1 <= len(ma) <= 64 (domain of the statement); ma entries are (rx, tx) pairs")
+    run.assume("resolve: maio in 0..63, 1 <= len(ma) <= 64 (domain of the statement); hsn in 0..63 is established by __init__ (obligation above); ma entries are (rx, tx) pairs")
     run.extra["py_paths_explored"] = E.stats["paths"]
 
 
